@@ -4,7 +4,7 @@ from fractions import Fraction
 import numpy as np
 from harness import votelib as V, gslib
 from harness.c11 import consistent_vals
-from harness.common import pmap, lean_query, guard, fr, to_np
+from harness.common import pmap, lean_query, guard, fr, to_np, safe_judge
 from harness.c01 import chunks
 
 LEVEL = "proof"
@@ -179,6 +179,7 @@ def impl_other(case):
     return {"results": out}
 
 
+@safe_judge
 def judge_vote(R, it, res, lean):
     P, m = it["P"], it["m"]
     if "exc" in res or "hang" in res:
@@ -257,7 +258,7 @@ def judge_vote(R, it, res, lean):
         p = [Fraction(x) for x in ch[0]["p"]]
         tot = sum(sc)
         drawn = ch[0]["r"][0]
-        if any(abs(p[j] - sc[j] / tot) > Fraction(1, 10 ** 12) for j in range(len(sc))) or len(p) != len(sc):
+        if len(p) != len(sc) or any(abs(p[j] - sc[j] / tot) > Fraction(1, 10 ** 12) for j in range(len(sc))):
             R.violation("property_violation", "draw probabilities are proportional to the scores", f"{ENTRY}: Randomized{name}.scf", inp,
                         impl_output={"p": ch[0]["p"], "score": r["score"]}, oracle="p != score / sum(score)", config=cfg)
             return
@@ -287,6 +288,7 @@ def shift_struct(x, d):
     return x + d
 
 
+@safe_judge
 def judge_other(R, it, res):
     if "exc" in res or "hang" in res:
         R.violation("property_violation", "total", ENTRY, it, impl_output=res, oracle="raised/hang")
